@@ -266,24 +266,30 @@ func Infra(format string, a ...any) {
 	os.Exit(2)
 }
 
-// raceFrame extracts the first /repo frame of a race report (stable finding key).
+// raceFrame extracts the function of the first racing access (the first non-runtime frame of
+// the report). A race whose racing access is in harness code is a harness bug, not a finding.
 func raceFrame(path string) string {
 	b, err := os.ReadFile(path)
 	if err != nil {
 		return "unknown"
 	}
 	lines := strings.Split(string(b), "\n")
-	for i, l := range lines {
-		if strings.Contains(l, "/repo/") && i > 0 {
-			fn := strings.TrimSpace(lines[i-1])
-			if j := strings.Index(fn, "("); j > 0 {
-				fn = fn[:j]
-			}
-			if strings.Contains(fn, "vshim") || strings.Contains(fn, "verifh") {
-				continue
-			}
-			return fn
+	for i := 0; i+1 < len(lines); i++ {
+		fn := strings.TrimSpace(lines[i])
+		loc := strings.TrimSpace(lines[i+1])
+		if !strings.HasSuffix(fn, ")") || !strings.HasPrefix(loc, "/") {
+			continue
 		}
+		if strings.HasPrefix(fn, "runtime.") || strings.HasPrefix(fn, "sync.") || strings.HasPrefix(fn, "sync/atomic.") || strings.Contains(loc, "/src/runtime/") {
+			continue
+		}
+		if j := strings.Index(fn, "("); j > 0 && !strings.HasPrefix(fn, "(") {
+			fn = fn[:j]
+		}
+		if strings.HasPrefix(loc, "/verif/") && !strings.Contains(loc, "/inpkg/") {
+			Infra("data race in harness code (%s at %s): fix the harness", fn, loc)
+		}
+		return fn
 	}
 	return "unknown"
 }
